@@ -117,3 +117,119 @@ pub fn all() -> Vec<Scn> {
     }
     v
 }
+
+// ---------------------------------------------------------------------------
+// accept: what the kernel writes into the peer-address out-parameter depends on how the CONNECTING socket is bound
+
+const PEERS: [&str; 7] = ["unbound", "bound-short-path", "bound-107-byte-path", "bound-108-byte-path-no-NUL", "abstract", "abstract-full-108", "autobound"];
+
+/// Connect a libc client whose own socket is bound as `kind` says; returns (fd, path to unlink).
+fn peer_client(e: &Env, kind: usize) -> (i32, Option<String>) {
+    unsafe {
+        let c = libc::socket(libc::AF_UNIX, libc::SOCK_STREAM | libc::SOCK_CLOEXEC, 0);
+        assert!(c >= 0);
+        let mut sa: libc::sockaddr_un = std::mem::zeroed();
+        sa.sun_family = libc::AF_UNIX as u16;
+        let put = |sa: &mut libc::sockaddr_un, b: &[u8], at: usize| {
+            for (i, x) in b.iter().enumerate() {
+                sa.sun_path[at + i] = *x as libc::c_char;
+            }
+        };
+        let exact = |n: usize| {
+            let base = format!("{}/", e.dir);
+            format!("{base}{}", "c".repeat(n - base.len()))
+        };
+        let pid = libc::getpid();
+        let (len, unlink): (u32, Option<String>) = match kind {
+            0 => (0, None),
+            1 => {
+                let p = e.path("cl.sock");
+                put(&mut sa, p.as_bytes(), 0);
+                (2 + p.len() as u32 + 1, Some(p))
+            }
+            2 => {
+                let p = exact(107);
+                put(&mut sa, p.as_bytes(), 0);
+                (2 + 108, Some(p))
+            }
+            3 => {
+                let p = exact(108);
+                put(&mut sa, p.as_bytes(), 0);
+                (2 + 108, Some(p))
+            }
+            4 => {
+                let n = format!("hfd-abs-{pid}");
+                put(&mut sa, n.as_bytes(), 1);
+                (2 + 1 + n.len() as u32, None)
+            }
+            5 => {
+                let n = format!("{:x<107}", format!("hfd-full-{pid}-"));
+                put(&mut sa, n.as_bytes(), 1);
+                (2 + 108, None)
+            }
+            _ => (2, None),
+        };
+        if let Some(p) = &unlink {
+            let _ = std::fs::remove_file(p);
+        }
+        if len > 0 {
+            assert_eq!(0, libc::bind(c, (&sa as *const libc::sockaddr_un).cast(), len), "peer bind kind {kind}");
+        }
+        let mut srv: libc::sockaddr_un = std::mem::zeroed();
+        srv.sun_family = libc::AF_UNIX as u16;
+        let sp = e.path("acc.sock");
+        put(&mut srv, sp.as_bytes(), 0);
+        assert_eq!(0, libc::connect(c, (&srv as *const libc::sockaddr_un).cast(), 2 + sp.len() as u32 + 1), "peer connect");
+        (c, unlink)
+    }
+}
+
+pub fn accept_peers() -> Vec<Scn> {
+    use rusl::platform::SocketFlags;
+    use std::time::Duration;
+    let mut v = Vec::new();
+    for (kind, pname) in PEERS.iter().enumerate() {
+        for api in 0..4u8 {
+            let aname = ["rusl::accept_unix", "UnixListener::accept", "UnixListener::try_accept", "UnixListener::accept_with_timeout"][api as usize];
+            v.push(
+                scn(&format!("{aname}[peer={pname}]"), move |e| {
+                    let l = e.ul.as_mut().unwrap();
+                    match api {
+                        0 => mk(
+                            rusl::network::accept_unix(fdv(peek(&*l)[0]), SocketFlags::SOCK_NONBLOCK | SocketFlags::SOCK_CLOEXEC).map(|(fd, _)| unsafe { OwnedFd::from_raw(fd) }),
+                            |o| {
+                                use tiny_std::unix::fd::AsRawFd;
+                                vec![o.as_raw_fd().value()]
+                            },
+                        ),
+                        1 => mk(l.accept(), fd_of),
+                        2 => mk_opt(l.try_accept(), fd_of),
+                        _ => mk(l.accept_with_timeout(Duration::from_millis(200)), fd_of),
+                    }
+                })
+                .init(tiny_unix_listener)
+                .prep(move |e| {
+                    let (c, p) = peer_client(e, kind);
+                    e.aux = vec![c];
+                    e.complaints.clear();
+                    if let Some(p) = p {
+                        e.clients.push(Box::new(p));
+                    }
+                })
+                .clean(|e| {
+                    for fd in e.aux.drain(..) {
+                        close_if_open(fd);
+                    }
+                    for c in e.clients.drain(..) {
+                        if let Ok(p) = c.downcast::<String>() {
+                            let _ = std::fs::remove_file(*p);
+                        }
+                    }
+                    drain_tiny(e);
+                })
+                .light(1),
+            );
+        }
+    }
+    v
+}
